@@ -761,6 +761,13 @@ def rule_cached_witness_consistent(ctx):
             models = {l for l in (ldeps & edeps) if "sat::sat_solver::Assignment" in b.local_ty(l) or "sat::assignment::Assignment" in b.local_ty(l) or b.local_ty(l).endswith("Assignment")}
             if models:
                 r.ok(anchor, "list and witness are read off one SAT model", s.loc())
+                # ... with the right polarity: accepted credulously = true in the model, refused skeptically = not true in it
+                pol = _model_list_polarity(prog, b, lst)
+                want = "false" if kind == "skeptical" else "true"
+                if pol is None:
+                    r.ok(anchor + "|polarity", "NOT decided: how the list is filtered from the model is not recognised", s.loc())
+                else:
+                    r.check(pol == {want}, anchor + "|polarity", "list-polarity:%s" % sorted(pol), "the %s list holds the arguments %s in the model" % ("refused" if kind == "skeptical" else "accepted", "not true" if kind == "skeptical" else "true"), "the %s list cached with the witness holds the arguments that are %s in the model: a later query for one of them gets the witness as a certificate that %s it" % ("refused" if kind == "skeptical" else "accepted", " / ".join(sorted(pol)), "contains" if kind == "skeptical" else "omits"), s.loc())
                 continue
             # explicit exclusion / restriction: a store `flags[id(member of the witness)] = false`, or a filter testing membership in the witness
             fitted = False
@@ -784,6 +791,43 @@ def rule_cached_witness_consistent(ctx):
                                         fitted = True
             r.check(fitted, anchor, "witness-may-not-fit", "the cached list is cleared of (restricted to) the witness's members", "the %s list cached with a witness is not tied to that witness: it is accumulated independently of it (e.g. over all the extensions a search visited) while the witness is one extension - a later query for a listed argument gets a certificate that %s it" % ("refused" if kind == "skeptical" else "accepted", "contains" if kind == "skeptical" else "omits"), s.loc())
     r.floor(n, 3, "cache insertions that carry a witness")
+
+
+def _model_list_polarity(prog, b, lst):
+    """{'true', 'false'}: which model values the elements kept in a list filtered from a model have; None when not recognised"""
+    from ..prov import prov, subterms
+    from .grounded import inherited_conditions, _cond_trees
+
+    out = set()
+    for e in prov(prog, b, lst):
+        clos = [t for t in subterms(e) if isinstance(t, tuple) and t[0] == "call" and re.search(r"Iterator::(filter_map|filter)$", t[1]) and t[3]]
+        if len(clos) != 1:
+            return None
+        clo = prog.by_target[b.target].get(clos[0][3][0])
+        if clo is None:
+            return None
+        keeps = []
+        for st in clo.sites():
+            nd = st.node
+            if clos[0][1].endswith("filter_map") and st.si is not None and nd["k"] == "assign" and nd["rv"]["k"] == "aggregate" and nd["rv"]["agg"].get("variant") == "Some" and "Option" in str(nd["rv"]["agg"].get("path")):
+                # the closure's own Some(..) results, not payload constants of comparisons
+                if any(o.kind == "agg" and (o.site.bb, o.site.si) == (st.bb, st.si) for o in origins(clo, {"l": 0, "p": []}, transparent=())):
+                    keeps.append(st)
+        if not keeps:
+            return None
+        for st in keeps:
+            found = None
+            for c, t in _cond_trees(prog, inherited_conditions(prog, clo, st.bb)):
+                if c[0] == "call" and re.search(r"PartialEq::(eq|ne)$", c[1]) and len(c[2]) == 2:
+                    ks = [a[2][0][1] for a in c[2] if a[0] == "agg" and a[1] == "Some" and len(a[2]) == 1 and a[2][0][0] == "const" and isinstance(a[2][0][1], bool)]
+                    vals = [a for a in c[2] if not (a[0] == "agg" and a[1] == "Some")]
+                    if len(ks) == 1 and len(vals) == 1 and any(isinstance(x, tuple) and x[0] == "elem" for x in subterms(vals[0])):
+                        equal = t if c[1].endswith("::eq") else (not t)
+                        found = ("true" if ks[0] else "false") if equal else ("false" if ks[0] else "true")
+            if found is None:
+                return None
+            out.add(found)
+    return out or None
 
 
 def _site_in_fn(prog, fn, y, s):
@@ -928,3 +972,65 @@ def rule_encoder_assumptions_reach_sat_calls(ctx):
                                             got |= {l[3][0] for l in _leaves(e) if l[0] == "param" and l[2] == 1 and l[3]}
                     r.check(bool(fields) and fields <= got, "%s|sat-call" % b.id, "additional-assumptions-dropped", "the computer's SAT call carries the additional assumptions (%s)" % sorted(fields), "a SAT call of the maximal-extension computer does not carry the additional assumptions it was given: a search on a dynamic solver's shared SAT solver ignores the encoder's switches", s.loc())
         r.floor(k, 1, "SAT calls of the maximal-extension computer")
+
+
+def rule_dynamic_query_polarity(ctx):
+    """C08 / C02 / C03: what the SAT call of a dynamic solver's query asks, and how its verdict is read"""
+    prog = ctx.prog
+    from .. import tags
+
+    r = ctx.rule(
+        "dynamic-query-polarity",
+        "a dynamic solver's own SAT call assumes the queried argument's literal as it is for a credulous query (a model is a witness: YES) and "
+        "negated for a skeptical query (a model is a counterexample: NO); the status returned in the arm that has a model, and in the arm that "
+        "has none, follows",
+    )
+    n = 0
+    for imp in dyn_impls(prog):
+        sadt = imp.get("self_adt")
+        for tr, kind in (("solvers::specs::CredulousAcceptanceComputer", "credulous"), ("solvers::specs::SkepticalAcceptanceComputer", "skeptical")):
+            for i2 in prog.impls_of_trait(tr):
+                if i2.get("self_adt") != sadt:
+                    continue
+                for m in i2["methods"]:
+                    qb0 = prog.lib(m["path"])
+                    if qb0 is None:
+                        continue
+                    group = [qb0] + [x for x in prog.reachable_from([qb0], virtual_dispatch=False).values() if x is not qb0 and x.kind != "closure" and x.impl and x.impl.get("self_adt") == sadt and not x.impl.get("trait")]
+                    for qb in group:
+                        for s in qb.calls():
+                            if not callee_matches(callee_of(s), r"SatSolver::solve_under_assumptions$"):
+                                continue
+                            anchor = "%s|query-literal" % qb.id
+                            lits = tags.literals_of(prog, qb, s.node["args"][1], set())
+                            argl = [l for l in lits if l.role == "ARG"]
+                            n += 1
+                            if not argl or any(l.pos is None for l in argl):
+                                r.ok(anchor, "NOT decided: the queried argument's literal is not recognised among the assumptions (%s)" % lits, s.loc())
+                                continue
+                            want = kind == "credulous"
+                            r.check(all(l.pos is want for l in argl), anchor, "query-literal:%s" % argl, "the %s query assumes the argument's literal %s" % (kind, "as it is" if want else "negated"), "the %s query assumes %s: it asks for %s" % (kind, argl, "an extension *without* the argument" if want else "an extension *with* the argument"), s.loc())
+                            # the status returned with / without a model of this call
+                            dst = s.node["dst"]["l"]
+                            for st in qb.sites():
+                                nd = st.node
+                                if st.si is None or nd["k"] != "assign" or nd["dst"] != {"l": 0, "p": []} or nd["rv"]["k"] != "aggregate" or nd["rv"]["agg"].get("kind") != "tuple" or len(nd["rv"]["ops"]) != 2:
+                                    continue
+                                k = op_const(nd["rv"]["ops"][0])
+                                if k is None or "bool" not in k:
+                                    continue
+                                arm = None
+                                for c in conditions(qb, st.bb):
+                                    if not c.is_discr or c.negated or len(c.values) != 1:
+                                        continue
+                                    if "Option<sat::sat_solver::Assignment>" not in qb.local_ty(c.place["l"]).replace("core::option::", ""):
+                                        continue
+                                    deps, _, _ = data_deps(qb, {"l": c.place["l"], "p": []})
+                                    if dst in deps or c.place["l"] == dst:
+                                        arm = "model" if c.values == ["1"] else "no model"
+                                if arm is None:
+                                    continue
+                                n += 1
+                                wanted = (arm == "model") == (kind == "credulous")
+                                r.check(k["bool"] is wanted, "%s|status-with-%s" % (qb.id, arm.replace(" ", "-")), "status:%s" % k["bool"], "%s query: %s gives %s" % (kind, arm, wanted), "the %s query answers %s when the SAT call has %s" % (kind, str(k["bool"]).upper(), "a model" if arm == "model" else "no model"), st.loc())
+    r.floor(n, 6, "SAT calls and verdict arms of the dynamic solvers' queries")
